@@ -184,7 +184,8 @@ def run_shard(args):
     if not os.path.exists(req) or os.path.getsize(req) == 0:
         return (b, unit, prof, '')
     ans = f'{work}/{b}.{unit}.{prof}.ans'
-    tmo = int(os.environ.get('SFX_SHARD_TIMEOUT', '900'))
+    # a shard of a quick run takes seconds to a minute; a call that never returns must be reported well inside the time allowed for a quick check
+    tmo = int(os.environ.get('SFX_SHARD_TIMEOUT', '300' if os.environ.get('SFX_TIER', 'quick') == 'quick' else '2400'))
     rc = subprocess.call(['bash', '-c', f'timeout {tmo} {HARNESS}/target/{prof}/{b} < {req} > {ans}'])
     hang = ''
     if rc == 124:
@@ -431,6 +432,7 @@ def exptail(x, n):
         i += 1
 
 def check(prop, tier):
+    os.environ['SFX_TIER'] = tier
     seed = int(os.environ.get('VERIF_SEED', '1'))
     cfg = P.PROPS[prop]
     ctx = Ctx(prop, tier, seed)
